@@ -103,3 +103,10 @@ Print Assumptions C07_invariant_initially.
 Theorem C07_burn_is_last_coin_mover : GenApp.burn_in_end_blockers = true /\ after_burn_harmless = true.
 Proof. exact burn_is_last_coin_mover. Qed.
 Print Assumptions C07_burn_is_last_coin_mover.
+
+(** source tie (T1): the burn module account is on the bank's blocklist, so no transaction can put coins — and with them an
+    ordinary account — at its address before the first burn creates the module account there (the burn would panic on an
+    account of the wrong kind); the burn profile sends coins to the module accounts before the first burn and expects a refusal *)
+Theorem C07_burn_module_account_cannot_receive : GenApp.burn_module_account_blocked = true.
+Proof. exact burn_module_account_blocked_fact. Qed.
+Print Assumptions C07_burn_module_account_cannot_receive.
